@@ -31,7 +31,7 @@ def plan(tier, seed):
     k = 8 if tier == "quick" else 64
     n_static = 1500 if tier == "quick" else 12000
     n_hist = 1200 if tier == "quick" else 10000
-    return [{"kind": "mixed", "sub": i, "n_static": n_static, "n_hist": n_hist} for i in range(k)]
+    return [{"kind": "mixed", "sub": i, "n_static": n_static, "n_hist": n_hist} for i in range(k)] + [{"kind": "repo-tests", "part": "linear"}]
 
 
 def floors(tier):
@@ -233,6 +233,12 @@ def worker(ctx, shard):
     mon = LinearMonitor(keep=200).install()
     import labella.scale as S
 
+    if shard["kind"] == "repo-tests":
+        from props import workload_r
+
+        mon.uninstall()
+        workload_r.judge(ctx, shard["part"])
+        return
     rng = ctx.rng("mixed%d" % shard["sub"])
     for _ in range(shard["n_static"]):
         static_case(ctx, mon, rng, S)
